@@ -22,6 +22,19 @@ let run_seqnr_row toks =
     Buffer.contents buf
   | _ -> failwith "seqnr_row: bad case"
 
+(* seqsub_row <old> : SeqNr - SeqNr with the model's WRAP_TOLERANCE, all 65536 values of new *)
+let run_seqsub_row toks =
+  match toks with
+  | [b] ->
+    let old = z_of_string b in
+    let buf = Buffer.create (65536 * 7) in
+    for n = 0 to 65535 do
+      if n > 0 then Buffer.add_char buf ',';
+      Buffer.add_string buf (string_of_z (seq_sub (z_of_int n) old))
+    done;
+    Buffer.contents buf
+  | _ -> failwith "seqsub_row: bad case"
+
 (* seqnr_pred <new> <old> <tol> <res> *)
 let run_seqnr_pred toks =
   match List.map z_of_string toks with
@@ -42,9 +55,15 @@ let run_seqnr_row_pred toks =
   | _ -> failwith "seqnr_row_pred"
 
 
-let dispatch = function
+let dispatch0 = function
+  | "seqsub_row" :: r -> Some (run_seqsub_row r)
+  | _ -> None
+
+let dispatch_rest = function
   | "seqnr" :: r -> Some (run_seqnr r)
   | "seqnr_row" :: r -> Some (run_seqnr_row r)
   | "seqnr_pred" :: r -> Some (run_seqnr_pred r)
   | "seqnr_row_pred" :: r -> Some (run_seqnr_row_pred r)
   | _ -> None
+
+let dispatch t = match dispatch0 t with Some r -> Some r | None -> dispatch_rest t
